@@ -4,7 +4,7 @@
 (* tetrisched_cplex_scheduler.py) as a state machine whose states are the      *)
 (* feasible partial plans of ONE instance.                                     *)
 (*                                                                            *)
-(* record  [id, kind, mode, now, caps, occ, tasks, conv, ans]                  *)
+(* record  [id, kind, mode, now, caps, occ, tasks, conv, ans, dump]            *)
 (*   caps  : per worker a vector of capacities, one entry per resource name    *)
 (*           (0 = the worker does not have it)                                 *)
 (*   occ   : RUNNING occupants [w, dem, hold, prec]: the occupant holds dem on *)
@@ -38,7 +38,8 @@
 (*           "max"  the state is the answer; C14_Maximal: nothing can be added *)
 (*           "ext"  search over the extensions of the answer; NoBetterPlan on  *)
 (*                  the number of placed reward tasks                          *)
-(*           "enum" enumerate every feasible plan (no pruning, no verdict)     *)
+(*           "enum" enumerate every feasible plan (no pruning, no verdict;     *)
+(*                  dump = TRUE prints the complete plans)                     *)
 (*                                                                            *)
 (* Place(w, s, st) / Skip decide the tasks in index order; Place is enabled    *)
 (* only if PlanOK still holds.  Reachable states = feasible (partial) plans.   *)
@@ -251,6 +252,7 @@ IsInitial == plan = Base(R) /\ nxt = (IF R.kind = "max" THEN NT(R) + 1 ELSE Next
 BatchChecked ==
     /\ TLCSet(3, [TLCGet(3) EXCEPT ![rid] = @ + 1])
     /\ Complete => TLCSet(2, [TLCGet(2) EXCEPT ![rid] = @ + 1])
+    /\ (R.kind = "enum" /\ R.dump /\ Complete /\ PlanOK(R, plan)) => PrintT("@@ " \o ToString(R.id) \o " plan " \o ToString(plan))
     /\ (~C14_NoBetterPlan /\ ~Found(rid)) => Report(rid, "better", plan)
     /\ ~C14_Maximal => Report(rid, "addable", CHOOSE a \in Addable(R, plan) : TRUE)
     \* not part of the property: is the answer itself inside the modelled space?
